@@ -312,6 +312,12 @@ def build(cfg):
             st.parent = out
             out = out.section()
             st.lower = st.parent.section()
+    if base in ("section", "section-pair"):
+        # an unrelated Output of the same process with a section of its own (created later, holding text): it is no
+        # business of the bar's section
+        st.decoy = Output(_REC(), AnsiFormatter(forced=True))
+        st.decoy_section = st.decoy.section()
+        st.decoy_section.write_line("decoy text of another output")
     if kind.startswith("quiet"):
         out.set_quiet(True)
     if cfg["verbosity"]:
